@@ -220,7 +220,7 @@ def configs(tier, seed):
                 add("unitary", sim="blochsim", nt=nt, ns=ns, nd=nd, cost=10 * nt)
             add("unitary", sim="blochsim", nt=nt, ns=ns, nd=0, matrix=False, cost=10 * nt)
         for ns, nc, sens, fmap in ((1, 1, False, False), (1, 2, True, False), (4, 1, False, True)) + (((4, 2, True, True),) if full else ()):
-            if (ns == 4 and nt > 1 and not full) or (nc == 2 and nt > 1):
+            if (ns == 4 and nt > 1 and not full) or (nc == 2 and nt > 1) or (ns == 4 and nt > 2):
                 continue        # two channels with sensitivities x two samples: the normal form has ~1e5 terms (15 min)
             add("unitary", sim="abrm_ptx", nt=nt, ns=ns, nd=2, nc=nc, sens=sens, fmap=fmap, cost=40 * nt)
     # eps-regularised simulators: one sample (longer waveforms follow from the composition law, which is exact and checked below)
